@@ -486,6 +486,169 @@ def re_search(rx, text):
     import re
     return re.search(rx, text) is not None
 
+STORAGE_H = 'specs/C08/storage.h'
+DSRC_TU = 'src/datasource.cpp'
+POOLS = ['f32', 'f64', 'i08', 'i16', 'i32', 'i64', 'u08', 'u16', 'u32', 'u64']
+
+STORAGE_SETUP = r'''
+int main(void)
+{
+  struct nv_dsrc ds; struct nv_features features; int64_t samples; struct nv_visitor op; uint64_t target;
+  /* an arbitrary feature list, two arbitrary distinct features of it */
+  __CPROVER_assume(1 <= features.size && features.size <= NV_MAXF);
+  __CPROVER_assume(0 <= samples && samples <= NV_MAXN);
+  __CPROVER_assume(0 <= nv_g1 && (uint64_t)nv_g1 < features.size && NV_G2);
+  /* 1. which pool does the real visit() use?  (probe: the data source already holds the feature list) */
+  ds.m_features = features; ds.m_testing.n = samples;
+  ds.m_storage_range.rows = (int64_t)features.size; ds.m_storage_range.cols = 2;
+  nv_thrown = 0; nv_probe = 1; nv_accesses = 0;
+'''
+# one feature: visit() after resize() stays inside the pool it picks, on the range and the type resize() recorded
+STORAGE_ACCESS = STORAGE_SETUP.replace('NV_G2', 'nv_g2 == (int64_t)features.size /* one observed feature: the second ghost index is outside the list */') + r'''
+  nv_which = 1; dsrc_visit(&ds, nv_g1, &op);
+  __CPROVER_assert(!nv_thrown && nv_accesses == 1, "visit(): every feature kind is dispatched to exactly one pool access");
+  const struct nv_pool* probe1 = nv_P1;
+  /* 2. the real resize() */
+  nv_probe = 0;
+  dsrc_resize(&ds, samples, &features, target);
+  __CPROVER_assert(!nv_thrown, "resize(): does not throw");
+  __CPROVER_assert(ds.m_storage_type.size == features.size && ds.m_storage_range.rows == (int64_t)features.size && ds.m_features.size == features.size && ds.m_testing.n == samples,
+                   "resize(): one recorded type / range per feature, the feature list and the sample count are stored");
+  __CPROVER_assert(ds.m_storage_mask.rows == (int64_t)features.size && ds.m_storage_mask.cols == (samples + 7) / 8, "(d) resize(): the mask has one row per feature and (samples+7)/8 bytes per row");
+  __CPROVER_assert(nv_T1 == NV_POOL_TYPE(&ds, nv_P1), "(c) resize(): the recorded storage type of a feature is the type of the pool visit() uses for it");
+  /* 3. the real visit() again, on the resized data source ((a) is asserted at the access) */
+  nv_accesses = 0;
+  nv_which = 1; dsrc_visit(&ds, nv_g1, &op);
+  __CPROVER_assert(!nv_thrown && nv_accesses == 1 && nv_P1 == probe1, "visit(): the pool depends on the feature descriptor only");
+  __CPROVER_assert(nv_R1.m_begin == nv_RNG1[0] && nv_R1.m_end == nv_RNG1[1], "visit(): slices exactly the range resize() stored for the feature");
+  __CPROVER_assert(0, "nv_canary: end of harness reachable");
+  return 0;
+}
+'''
+# two features: rows of the same pool are never shared
+STORAGE_DISJOINT = STORAGE_SETUP.replace('NV_G2', '0 <= nv_g2 && (uint64_t)nv_g2 < features.size && nv_g1 != nv_g2') + r'''
+  nv_which = 1; dsrc_visit(&ds, nv_g1, &op);
+  nv_which = 2; dsrc_visit(&ds, nv_g2, &op);
+  __CPROVER_assert(!nv_thrown && nv_accesses == 2, "visit(): every feature kind is dispatched to exactly one pool access");
+  nv_probe = 0;
+  dsrc_resize(&ds, samples, &features, target);
+  __CPROVER_assert(nv_P1 != nv_P2 || nv_RNG1[1] <= nv_RNG2[0] || nv_RNG2[1] <= nv_RNG1[0],
+                   "(b) two different features that visit() serves from the same pool never share rows of it");
+  __CPROVER_assert(0, "nv_canary: end of harness reachable");
+  return 0;
+}
+'''
+
+
+def static_constexpr_hook(tu, cls, names):
+    """a static constexpr data member (maxu08, ...) prints as its initialiser expression, read from the class on every run"""
+    def h(P, n):
+        if n.get('kind') != 'DeclRefExpr':
+            return None
+        rd = n.get('referencedDecl', {})
+        if rd.get('kind') != 'VarDecl' or rd.get('name') not in names:
+            return None
+        found = []
+        for d in astload.dump(tu, f'{cls}::{rd["name"]}'):
+            for x in astload.walk(d):
+                if x.get('kind') == 'VarDecl' and x.get('name') == rd['name']:
+                    init = [y for y in x.get('inner', []) if y.get('kind') not in ('FullComment',)]
+                    if init:
+                        found.append(init[0])
+        if not found:
+            from cxx2c import Unsupported
+            raise Unsupported(f'initialiser of {cls}::{rd["name"]} not found')
+        P.note(f'{cls}::{rd["name"]} -> its initialiser')
+        return '(' + P.expr(found[0]) + ')'
+    return h
+
+
+def pool_access_hook(P, n):
+    """op(feature, m_storage_X.slice(range).reshape(...), mask)  ->  nv_visit_access(self, &self->m_storage_X, range):
+    the operator (a lambda of the caller) is not translated; which pool is sliced with which range is what matters"""
+    from cxx2c import unwrap, Unsupported
+    if n.get('kind') != 'CXXOperatorCallExpr' or len(n.get('inner', [])) != 5:
+        return None
+    callee = unwrap(n['inner'][0]).get('referencedDecl', {})
+    obj = unwrap(n['inner'][1])
+    if callee.get('name') != 'operator()' or obj.get('referencedDecl', {}).get('name') != 'op':
+        return None
+    data = unwrap(n['inner'][3])
+    while data.get('kind') in ('MaterializeTemporaryExpr', 'ImplicitCastExpr', 'CXXBindTemporaryExpr', 'ExprWithCleanups'):
+        data = data['inner'][0]
+    if data.get('kind') != 'CXXMemberCallExpr' or data['inner'][0].get('name') != 'reshape':
+        raise Unsupported('visit(): the data handed to op is not pool.slice(range).reshape(...)')
+    sl = data['inner'][0]['inner'][0]
+    while sl.get('kind') in ('MaterializeTemporaryExpr', 'ImplicitCastExpr', 'CXXBindTemporaryExpr'):
+        sl = sl['inner'][0]
+    if sl.get('kind') != 'CXXMemberCallExpr' or sl['inner'][0].get('name') != 'slice' or len(sl['inner']) != 2:
+        raise Unsupported('visit(): the data handed to op is not pool.slice(range).reshape(...)')
+    pool = sl['inner'][0]['inner'][0]
+    P.note('op(feature, pool.slice(range).reshape(..), mask) -> nv_visit_access')
+    return f'nv_visit_access(self, {P.addr(pool)}, {P.expr(sl["inner"][1])})'
+
+
+def range_tensor_hook(P, n):
+    """m_storage_range and the int64 value pool have the same C++ type (tensor_mem_t<tensor_size_t, 2>) but different C
+    models (the range table has memory, a pool only dimensions): resize() on the range table is told apart by member name"""
+    if n.get('kind') != 'CXXMemberCallExpr':
+        return None
+    me = n['inner'][0]
+    if me.get('kind') != 'MemberExpr' or me.get('name') != 'resize':
+        return None
+    obj = me['inner'][0]
+    while obj.get('kind') == 'ImplicitCastExpr':
+        obj = obj['inner'][0]
+    if obj.get('kind') != 'MemberExpr' or obj.get('name') != 'm_storage_range':
+        return None
+    P.note('m_storage_range.resize(rows, cols)')
+    return f'nv_t2i_resize({P.addr(obj)}, {P.expr(n["inner"][1])}, {P.expr(n["inner"][2])})'
+
+
+def storage_fns():
+    types = [(r'^nano::datasource_t$', 'struct nv_dsrc'), (r'^nano::feature_t$|value_type$', 'struct nv_feat'),
+             (r'^nano::features_t$|^std::vector<nano::feature_t>$', 'struct nv_features'),
+             (r'^nano::feature_type$', 'int32_t'), (r'^std::unordered_map<nano::feature_type, long>$', 'struct nv_counts'),
+             (r'^std::pair<long, long>$|^pair<typename __decay_and_strip< ?(const )?long ?&>::__type, typename __decay_and_strip< ?(const )?long ?&>::__type>$', 'struct nv_pair_i64'), (r'^nano::tensor_range_t$', 'struct nv_range'),
+             (r'^nano::tensor3d_dims_t$|^std::array<long, 3>$', 'struct nv_dims3'),
+             (r'^nano::mask_c?map_t$|tensor_t<nano::tensor_c?m?array_storage_t, unsigned char, 1>', 'struct nv_mask1'),
+             (r'^\(lambda at .*datasource\.cpp:\d+:\d+\)$', 'struct nv_visitor')]
+    feat_members = [(r'^type\|nano::feature_t', 'nv_feat_type'), (r'^classes\|nano::feature_t', 'nv_feat_classes'),
+                    (r'^dims\|nano::feature_t', '{*self}.m_dims')]
+    hooks = [static_constexpr_hook(DSRC_TU, 'nano::datasource_t', ('maxu08', 'maxu16', 'maxu32')), pool_access_hook, range_tensor_hook]
+    t2 = (r'^operator\(\)\|typename tbase::t(const|mutable)ref \(const nano::tensor_size_t, const int\)( const)?\|.*tensor_vector_storage_t, long, 2>', '(*nv_t2i_at({&0}, {1}, {2}))')
+    vec_at = (r'^operator\[\]\|std::vector<nano::feature_t>::const_reference \(std::vector::size_type\) const', '(*nv_feature_at({&0}, {1}))')
+    visit = Fn('dsrc_visit', DSRC_TU, 'visit', flt='nano::datasource_t::visit',
+               select=lambda d: len(astload.template_args(d)) == 1 and 'datasource.cpp' in astload.template_args(d)[0] and d['type']['qualType'].rstrip().endswith('const'),
+               self_struct='struct nv_dsrc', types=types, uf_float=False, hooks=hooks, aggregates=['struct nv_range'],
+               calls=[t2, vec_at, (r'^make_range\|', '(struct nv_range){ {0}, {1} }'), (r'^critical0\|', 'nv_throw()')],
+               members=feat_members + [(r'^samples\|nano::datasource_t', '{self}->m_testing.n'), (r'^mask\|nano::datasource_t', 'nv_dsrc_mask')])
+    upd = lambda nm, t: Fn(nm, DSRC_TU, 'resize', flt='nano::datasource_t::resize', select=lambda d: len(astload.param_types(d)) == 3,
+                           lambda_index=0, lambda_select=lambda m: astload.param_types(m)[1] == t, captures=True, types=types, uf_float=False,
+                           aggregates=['struct nv_pair_i64'],
+                           calls=[(r'^operator\[\]\|std::unordered_map<nano::feature_type, long>::mapped_type &', '(*nv_counts_at({&0}, {1}))'),
+                                  (r'^make_pair\|', '(struct nv_pair_i64){ {0}, {1} }')])
+    pool_rx = r'nano::tensor_(t<nano::tensor_vector_storage_t, |vector_storage_t<)(float|double|signed char|short|int|long|unsigned char|unsigned short|unsigned int|unsigned long), 2>'
+    resize = Fn('dsrc_resize', DSRC_TU, 'resize', flt='nano::datasource_t::resize', select=lambda d: len(astload.param_types(d)) == 3,
+                self_struct='struct nv_dsrc', types=types + [(r'^std::vector<nano::feature_type>$|storage_type_t$', 'struct nv_types')], uf_float=False, hooks=hooks,
+                aggregates=['struct nv_pair_i64'],
+                calls=[t2, vec_at,
+                       (r'^operator\(\)\|.*\(nano::feature_type, long\) const\|', 'resize_upd_i64({1}, {2}, &size_storage)'),
+                       (r'^operator\(\)\|.*\(nano::feature_type, int\) const\|', 'resize_upd_i32({1}, {2}, &size_storage)'),
+                       (r'^operator\[\]\|std::unordered_map<nano::feature_type, long>::mapped_type &', '(*nv_counts_at({&0}, {1}))'),
+                       (r'^operator\[\]\|std::vector<nano::feature_type>::reference \(std::vector::size_type\)', '(*nv_type_at({&0}, {1}))'),
+                       (r'^operator=\|std::pair<long, long> &', '({0} = {1})'),
+                       (r'^operator=\|std::vector<nano::feature_t> &', '({0} = {1})'),
+                       (r'^size\|nano::tensor_size_t \(const tensor_dims_t<3', 'nv_dims3_size({0})')],
+                members=feat_members + [(r'^size\|std::vector<nano::feature_t>', '{*self}.size'),
+                                        (r'^resize\|std::vector<nano::feature_type>', 'nv_types_resize'),
+                                        (r'^resize\|nano::tensor_t<nano::tensor_vector_storage_t, long, 2>', 'nv_t2i_resize'),
+                                        (r'^resize\|nano::tensor_(t<nano::tensor_vector_storage_t, |vector_storage_t<|base_t<)long, 1', 'nv_t1i_resize'),
+                                        (r'^zero\|nano::tensor_(t<nano::tensor_vector_storage_t, |vector_storage_t<|base_t<)long, 1', 'nv_t1i_zero'),
+                                        (r'^size\|nano::tensor_base_t<long, 2, true>', 'nv_t2i_size'),
+                                        (r'^resize\|' + pool_rx, 'nv_pool_resize'), (r'^zero\|' + pool_rx, 'nv_pool_zero')])
+    return [resize, upd('resize_upd_i64', 'long'), upd('resize_upd_i32', 'int'), visit]
+
 
 def build(tier):
     targets = []
@@ -516,6 +679,8 @@ def build(tier):
     targets.append(Target('flatten_sclass_u8', flatten_fns(), FLAT_H))
     for t1 in STORAGE:
         targets.append(product_target(t1))
+    targets.append(Target('datasource_storage_access', storage_fns(), STORAGE_H, enforce_none=True, harness=STORAGE_ACCESS))
+    targets.append(Target('datasource_storage_disjoint', storage_fns(), STORAGE_H, enforce_none=True, harness=STORAGE_DISJOINT))
     targets.append(Target('pairwise_select_scalar', pairloop_fns('select'), PAIRLOOP_H))
     targets.append(Target('pairwise_flatten', pairloop_fns('flatten'), PAIRLOOP_H))
     for op in ('drop', 'shuffle', 'undrop', 'unshuffle'):
